@@ -8,6 +8,41 @@ import os
 ROOT = os.path.dirname(os.path.dirname(os.path.abspath(__file__)))
 
 CHECKS = {
+    "C10": dict(
+        category="model_checking",
+        technique="deviation-bounded exhaustive exploration of schema documents: every base document rendered from the "
+                  "schema model must load; every rule-violating edit operator is applied at every applicable element of "
+                  "every base document (thorough: every pair at unrelated elements) and must raise SchemaError from "
+                  "loadSchemaFile; rule-preserving operators at every site must keep the document loadable",
+        text="~260 base documents (generated family at placements 0-2, rich / C08 / C13 schemas, a composed document with "
+             "derived key types and prefixes, a component document imported by a schema); 40 violating operators "
+             "covering every rule of the statement (duplicate type / key / attribute names incl. inherited ones, use "
+             "before definition, extends / implements of the wrong kind or undefined, '*' key names, wildcard without "
+             "attribute, multisection with a fixed name, default vs required, default keying, colliding wildcard "
+             "defaults also under a derived key type, malformed names / attributes / handlers / prefixes, reserved "
+             "getSection prefix, required values, unknown datatypes and key types, nesting, unknown elements, stray "
+             "text) and 10 preserving operators.",
+        note="Each violating operator breaks a rule by construction at its site; pairs only at elements neither of "
+             "which contains the other.  Not generated (unspecified): <default> inside a plain <key>, required with "
+             "<default> on multikey / wildcard, malformed XML, cardinality of <description>, well-formed dotted "
+             "datatype names that cannot be imported.",
+        design="DESIGN.md section 3, C10", engine="E3 deviate"),
+    "C11": dict(
+        category="model_checking",
+        technique="differential exploration over schemas x texts: composed schemas are generated exhaustively within "
+                  "bounds, each is loaded together with its mechanically produced expansion, and the whole C01 "
+                  "breadth-first search (explicit-state, real loader) of the expanded schema is replayed on both",
+        text="Extends chains of length 1..3 (every item kind per link, key type / datatype / implements overridden at "
+             "every subset of links, wildcard defaults colliding only under a derived key type), prefixes on schema and "
+             "section types in every relative / absolute combination with every spelling of section datatype, key "
+             "datatype and key type, schema-level extends of 1..3 base files in 5 key-type situations (conflicts must "
+             "be refused), component imports along every import graph over 3 generated packages x every import list "
+             "of length <= 3 (import orders that leave a type undefined must be refused).  Identical outcome (value "
+             "tree or rejection) for every text; acceptance of the schema itself identical.",
+        note="Trusted: vz/gen/expand.py (written from the statement).  Texts in C01's unspecified regions are not "
+             "compared; top-level attribute order is not compared for schema-level extends (merge order is not in the "
+             "statement).  Only two prefix-bearing nesting levels exist in the schema language.",
+        design="DESIGN.md section 3, C11", engine="E2 bfs"),
     "C19": dict(
         category="fault_enumeration",
         technique="fault-point enumeration: each generated load graph is executed once to count its fault points and "
